@@ -142,6 +142,10 @@ func main() {
 		fmt.Fprintf(os.Stderr, "unknown component %q; have %v\n", *comp, names)
 		os.Exit(2)
 	}
+	if strings.HasPrefix(*comp, "_") { // helper subprocess modes
+		fn(nil)
+		return
+	}
 	if err := os.MkdirAll(*out, 0o755); err != nil {
 		fmt.Fprintln(os.Stderr, err)
 		os.Exit(2)
